@@ -35,7 +35,9 @@ ASCII_S = ["abc", "Hello World", "a", "MiXeD cAsE", "x1y2", "  pad  ", "tab\tsep
            "one two  three", "ALLCAPS", "q"]
 UNI_S = ["éàü", "αβγ", "Жук", "日本語", "éa", "naïve café", " nb ", "　wide　", "ÀÉÎ", "straße",
          "ǅ x", "ﬁn", "ı", "Ωmega"]
-NUM_S = ["0", "5", "-3", "2.5", "100", "255", "1024", "9223372036854775807", "9223372036854775808", "-0.5", "1e3", "16", "8", "1"]
+NUM_S = ["0", "5", "-3", "2.5", "100", "255", "1024", "9223372036854775807", "9223372036854775808", "-0.5", "1e3", "16", "8", "1",
+         # arguments of the wrong kind: the documented outcome is an empty value (or a status-2 diagnostic), never a crash
+         "abc", "1x", "5 ", "0x10"]
 DATE_S = ["2020-02-29", "2021-02-28", "2020-12-31", "2021-01-01", "2020-03-01 00:00:00", "2019-12-31 23:59:59",
           "2024-02-29 12:30:00", "2020:05:06", "2020-13-01", "2023-1-5", "1999-12-31"]
 COLS_S = ["name", "ext"]
@@ -144,7 +146,7 @@ def render(e, curly=False):
     if k == "lit":
         return lang.quote(e[1])
     if k == "num":
-        return e[1]
+        return e[1] if re.match(r"^-?[0-9.e]+$", e[1]) else lang.quote(e[1])
     if k == "col":
         return e[1]
     o, c = ("{", "}") if curly else ("(", ")")
